@@ -73,8 +73,13 @@ def h_fragmentizer(X, is_text, max_units, max_frags):
     fz.fragment_lengths = list(lengths)
     saved = wl.Fragmentizer.FRAGMENT_SIZE
     wl.Fragmentizer.FRAGMENT_SIZE = F
+    pieces = []
     try:
-        pieces = list(fz(content))
+        for piece in fz(content):
+            pieces.append(piece)
+            # every piece but the last carries at least ... nothing, in the worst case; still, more pieces than bytes + fragments is a runaway
+            X.check(len(pieces) <= len(content) + k + 2, "C28/fragmentizer/does-not-terminate",
+                    f"more than {len(content) + k + 2} pieces for {len(content)} bytes (FRAGMENT_SIZE={F}): the slicing loop makes no progress")
     finally:
         wl.Fragmentizer.FRAGMENT_SIZE = saved
     # which branch did the code take?  (already decided by the path condition: no new fork)
@@ -129,6 +134,17 @@ def h_fragmentizer(X, is_text, max_units, max_frags):
 # (ii) e2e
 
 
+class _Driver(sansio.Driver):
+    """a layer that never stops emitting commands must fail the check, not hang it"""
+
+    X = None
+
+    def _exec(self, cmd):
+        if len(self.trace) > 5000:
+            self.X.fail("C28/e2e/runaway", f"the layer emitted more than 5000 commands; last: {cmd!r}")
+        super()._exec(cmd)
+
+
 def _mk(deflate):
     ctx = sansio.make_context(_OPTS)
     ctx.server = connection.Server(address=("example.com", 80))
@@ -142,7 +158,7 @@ def _mk(deflate):
     flow.request, flow.response = req, resp
     flow.websocket = websocket.WebSocketData()
     lay = wl.WebsocketLayer(ctx, flow)
-    d = sansio.Driver(lay, ctx)
+    d = _Driver(lay, ctx)
 
     def ext():
         if not deflate:
@@ -167,6 +183,7 @@ class _World:
         self.X = X
         self.deflate = deflate
         self.ctx, self.flow, self.d, self.peers = _mk(deflate)
+        self.d.X = X
         self.conn = {"client": self.ctx.client, "server": self.ctx.server}
         self.consumed = {"client": 0, "server": 0}
         self.rx = {"client": [], "server": []}  # complete messages decoded by that peer: (is_text, content bytes, [frame payload sizes])
